@@ -96,6 +96,11 @@ var allowCfgs = []allowCfg{
 	{"bank-only", []string{urlSend, urlMultiSend}},
 	{"wildcard", []string{"*"}},
 	{"empty", []string{}},
+	// entries that are string-related to a real type URL but not equal to it (host parameter validation accepts
+	// any non-blank string): a proper prefix, an extension, and the wildcard as a suffix. None of them allows anything.
+	{"prefix-of-send", []string{urlSend[:len(urlSend)-1], "/cosmos.bank.v1beta1.Msg"}},
+	{"extension-of-send", []string{urlSend + "X", urlMultiSend + "/"}},
+	{"package-wildcard", []string{"/cosmos.bank.v1beta1.*", "*/"}},
 }
 
 // refAllowed is the allow-list predicate written from the host parameter documentation:
